@@ -1,7 +1,8 @@
 """C02 -- every force routine computes the specified pairwise Newtonian sum.
 
  E1/E4  Gravity.tla: the declarative interaction set Acts (from the statement) and the loop-shaped sets
-     transcribed from src/gravity.c (BASIC, COMPENSATED, MERCURIUS mode 0 / 1); TLC proves them equal
+     transcribed from src/gravity.c (BASIC, COMPENSATED, MERCURIUS mode 0 / 1, TRACE interaction / Kepler mode for
+     every set of flagged pairs); TLC proves them equal
      for every configuration with N <= 6 (N_active in -1..N, testparticle_type, gravity_ignore_terms),
      symmetry when all particles are active, and the completeness of the hybrid partition; it prints
      Acts for all 210 configurations.
@@ -11,8 +12,14 @@
      (summed over the 27 images for periodic non-cubic boxes) to 1e-12 when it is -- for BASIC,
      COMPENSATED, TREE at opening angle 0; MERCURIUS with a switching function returning the critical
      radius it was handed (per-body dcrit = (k+1)/16): mode 0 weight = max(dcrit_i, dcrit_j), mode 1
-     (encounter map not the identity) weight = 1 - the same, star term with full weight.
+     (encounter map not the identity) weight = 1 - the same, star term with full weight; TRACE with four
+     patterns of flagged pairs per configuration (none, all, two mixed): interaction mode = the unflagged planet pairs,
+     Kepler mode over the minimal and the full encounter list = star term + flagged pairs between members.
      All active: the mass-weighted accelerations cancel (1e-12).
+ Jacobi GravityJacobi.tla: the JACOBI routine as the gradient of the Wisdom-Holman interaction Hamiltonian; exact rational
+     term lists for 80 configurations on the line (2,3,6) s_k (N 2..5, four mass sets incl. zero masses, five site orders),
+     summed exactly and compared (1e-13); the specified force is checked to conserve momentum exactly; sampled: WHFast with
+     the JACOBI routine and with BASIC + explicit Jacobi term agree to 1e-11 over 60 steps.
 """
 import json
 import os
@@ -39,11 +46,23 @@ def run(tier, rep):
     rows = sorted(set(m.group(1).replace('\\"', '"') for m in re.finditer(r'^<<"A", "(.*)">>$', res.out, re.M)))
     if len(rows) < 200:
         raise MachineryError("Gravity printed only %d configurations" % len(rows))
+    trows = sorted(set(m.group(1).replace('\\"', '"') for m in re.finditer(r'^<<"T", "(.*)">>$', res.out, re.M)))
+    if len(trows) < 100:
+        raise MachineryError("Gravity printed only %d TRACE rows" % len(trows))
+    nconf = len(rows)
+    gj = common.run_tlc("GravityJacobi", "GravityJacobi", workers=1, coverage=False, timeout=900)
+    if gj.violation or not gj.ok:
+        raise MachineryError("GravityJacobi did not complete cleanly: %s %s" % (gj.violation, gj.out[-800:]))
+    jrows = sorted(set(m.group(1).replace('\\"', '"') for m in re.finditer(r'^<<"J", "(.*)">>$', gj.out, re.M)))
+    if len(jrows) < 60:
+        raise MachineryError("GravityJacobi printed only %d rows" % len(jrows))
+    rep.add(states=gj.distinct, transitions=gj.states)
+    rows = rows + trows + jrows
     rep.add(states=res.distinct, transitions=res.states)
     tf = os.path.join(sc, "table.ndjson")
     open(tf, "w").write("\n".join(rows) + "\n")
     out = os.path.join(sc, "out.json")
-    r = common.run_worker(os.path.join(HERE, "w_c02.py"), [tf, out, "3" if quick else "1"], timeout=3000)
+    r = common.run_worker(os.path.join(HERE, "w_c02.py"), [tf, out, "3" if quick else "1", str(common.seed())], timeout=3000)
     if r.returncode != 0:
         if r.returncode < 0:
             rep.violation("crash", "real code crashed (signal %d) in a force routine" % -r.returncode, {"stderr": r.stderr[-1500:]})
@@ -53,7 +72,7 @@ def run(tier, rep):
     rep.add(evaluations=o["probes"], traces_validated_against_impl=o["cfgs"], distinct_nontrivial=o["cfgs"],
             rule="configurations (N, N_active, testparticle_type, gravity_ignore_terms) of the TLC table; each probed with one unit-mass source at a time per routine",
             exhaustive=not quick)
-    rep.cov.update({"configurations_probed": o["cfgs"], "of_configurations": len(rows), "unit_mass_probes": o["probes"]})
+    rep.cov.update({"configurations_probed": o["cfgs"], "of_configurations": nconf, "trace_rows_probed": o.get("trace_rows", 0), "of_trace_rows": len(trows), "jacobi_rows": o.get("jacobi_rows", 0), "jacobi_equivalence_worst": o.get("jacobi_equivalence_worst"), "tree_angle_errors": o.get("tree_angle_errors"), "unit_mass_probes": o["probes"]})
     for s in o["samples"]:
         rep.sample({"kind": "configuration", **s})
     for v in o["violations"]:
@@ -67,9 +86,9 @@ def run(tier, rep):
         else:
             desc = "%s, N=%d: %s: %s (scale %s)" % (v["routine"], c["n"], v["clause"], v["sum"], v["scale"])
         rep.violation(key, desc, v)
-    rep.assumptions += ["forces are linear in the source masses (unit-mass probing); the JACOBI routine (not linear in the masses) is not probed",
-                        "tree gravity is probed only where it is defined (all particles active, nothing ignored) and at opening angle 0; the finite-opening-angle multipole bound is not assessed",
-                        "TRACE's splitting is not probed"]
+    rep.assumptions += ["forces are linear in the source masses (unit-mass probing); the JACOBI routine (not linear in the masses) is compared with exact term lists on a rational lattice instead",
+                        "tree gravity is decided only at opening angle 0 (all particles active, nothing ignored); the finite-opening-angle clause is sampled on one random cluster per run against the rigorous per-cell monopole bound and for shrinking with theta",
+                        ]
     shutil.rmtree(sc, ignore_errors=True)
 
 
